@@ -251,7 +251,7 @@ class C09(Check):
             # how much branching would the trajectory simulator see?
             for op in ref_circuit.all_operations():
                 op = op.untagged
-                if isinstance(op, cirq.ClassicallyControlledOperation):
+                if isinstance(op, (cirq.ClassicallyControlledOperation, cirq.If)):
                     op = op.without_classical_controls()
                 if getattr(op.gate, "_verif_composite_", False):
                     noise_bits += 2
@@ -279,7 +279,7 @@ class C09(Check):
         # cross-invariant on every channel in the circuit that is simulated
         for op in (ref_circuit or circuit).all_operations():
             op = op.untagged
-            if isinstance(op, cirq.ClassicallyControlledOperation):
+            if isinstance(op, (cirq.ClassicallyControlledOperation, cirq.If)):
                 op = op.without_classical_controls()
             if not cirq.has_unitary(op):
                 self._convert_check(cirq, op, ctx)
